@@ -144,6 +144,10 @@ func (dec *Decoder) readSafeString(utf16Length int) (s string) {
 // ReadUnsafeString reads unsafe string.
 func (dec *Decoder) ReadUnsafeString() (s string) {
 	s = dec.readUnsafeString(dec.ReadInt())
+	if dec.head == dec.tail && dec.reader != nil {
+		// Skip is about to refill the window that s points into.
+		s = string(append([]byte(nil), s...))
+	}
 	dec.Skip()
 	return
 }
